@@ -18,11 +18,23 @@ import random
 MAX_REPORT = 5
 NAMES = ["a", "b", "c", "d"]
 QUOTED = {"my col": "`my col`"}
+LITS = ["2", "3", "0.5", "1.5"]  # numeric scaling literals (`3:a`); they are factors that no variable ever removes
+
+
+def variables_of(t):
+    return [f for f in t if f not in LITS]
+
+
+def scale_conflict(terms):
+    """The parser rejects the same product written with two different numeric scalings (`3:a + a`)."""
+    seen = [frozenset(variables_of(t)) for t in terms]
+    return len(set(seen)) != len(seen)
 
 
 # ------------------------------------------------------------------ spec
 def d_spec(factors, wrt):
-    """factors: tuple of names (() = intercept). Returns '0', '1' or the tuple of remaining names."""
+    """factors: tuple of names and scaling literals (() = intercept). Returns '0', '1' or the tuple of remaining
+    factors -- a scaling literal is never removed, so `3:a` by a leaves the constant term `3`."""
     cur = list(factors)
     for v in wrt:
         if v not in cur:
@@ -229,7 +241,7 @@ def check_numeric(b, counts, terms, wrt, data, h, output):
         c0 = [c for s in spec0.structure if s.term == t0 for c in s.columns]
         assert len(c0) == 1, ("driver: original numeric term without a single column", text, str(t0), c0)
         c1 = [c for s in dspec.structure if s.term == t1 for c in s.columns]
-        one = term_sig(t1) == "1"
+        one = all(f.eval_method.value == "literal" for f in t1.factors)  # constant derivative term (`1`, or a bare scale `3`)
         if len(c1) != 1:
             cls = ("one-term-no-column" if one else "term-no-column") if not c1 else "term-many-columns"
             if one and not c1:
@@ -255,31 +267,37 @@ def all_terms(names):
 def run_bounded(ctx):
     rng = random.Random(ctx.seed)
     counts = {}
-    universe = all_terms(NAMES)  # 16 terms incl. the intercept
+    # 16 products incl. the intercept + 5 numerically scaled products (literal first, in the middle, last)
+    universe = all_terms(NAMES) + [("3", "a"), ("b", "0.5", "c"), ("a", "b", "2"), ("1.5", "d", "c", "a"), ("2", "a", "b", "c", "d")]
     wrts = [()] + [w for k in (1, 2) for w in itertools.product(NAMES + ["e"], repeat=k)]
     kmax = 4 if ctx.thorough else 2
     with ctx.bounded(
         "differentiate-factor-sets",
         rule="every formula made of <= 2 (quick) / 4 (thorough) distinct terms out of the 16 products over {a,b,c,d} (incl. the "
-             "intercept) x every tuple of <= 2 variables over {a,b,c,d,e}; non-trivial = some variable occurs in some term",
+             "intercept) and 5 numerically scaled products (3:a, b:0.5:c, a:b:2, 1.5:d:c:a, 2:a:b:c:d) x every tuple of <= 2 variables over {a,b,c,d,e}; non-trivial = some variable occurs in some term",
         exhaustive=True,
-        bound=f"terms <= {kmax} of 16, wrt length <= 2 over 5 names",
+        bound=f"terms <= {kmax} of 21, wrt length <= 2 over 5 names",
     ) as b:
         for k in range(0, kmax + 1):
             for terms in itertools.combinations(universe, k):
+                if scale_conflict(terms):
+                    continue  # not a formula
                 for wrt in wrts:
                     check_symbolic(b, counts, list(terms), wrt, None)
     with ctx.bounded(
         "differentiate-factor-sets-random",
-        rule="seeded random formulas with <= 8 terms over {a,b,c,d,`my col`} (unsorted factor order, orderings default/none/sort/"
-             "degree) x tuples of <= 4 variables (repeats allowed, absent name e); plus 3-term formulas x 8 sampled tuples; "
+        rule="seeded random formulas with <= 8 terms over {a,b,c,d,`my col`} (unsorted factor order, 25% of the terms carry a "
+             "scaling literal 2/3/0.5/1.5 at a random position, orderings default/none/sort/"
+             "degree) x tuples of <= 4 variables (repeats allowed, absent name e); plus 3-term formulas x 4 sampled tuples; "
              "non-trivial = some variable occurs in some term",
         exhaustive=False,
         bound="terms <= 8, factors per term <= 4, wrt length <= 4",
     ) as b:
         if not ctx.thorough:
             for terms in itertools.combinations(universe, 3):
-                for wrt in rng.sample(wrts, 8):
+                if scale_conflict(terms):
+                    continue
+                for wrt in rng.sample(wrts, 4):
                     check_symbolic(b, counts, list(terms), wrt, None)
         pool = NAMES + ["my col"]
         for _ in range(4000 if ctx.thorough else 600):
@@ -287,8 +305,10 @@ def run_bounded(ctx):
             terms = set()
             while len(terms) < n:
                 fs = rng.sample(pool, rng.randint(0, 4))
+                if fs and rng.random() < 0.25:
+                    fs.insert(rng.randrange(len(fs) + 1), rng.choice(LITS))
                 terms.add(tuple(fs))
-            terms = list({frozenset(t): t for t in terms}.values())  # distinct as sets, random factor order
+            terms = list({frozenset(variables_of(t)): t for t in terms}.values())  # distinct products, random factor order
             rng.shuffle(terms)
             wrt = tuple(rng.choice(pool + ["e"]) for _ in range(rng.randint(0, 4)))
             check_symbolic(b, counts, terms, wrt, rng.choice([None, "none", "sort", "degree"]))
@@ -297,7 +317,7 @@ def run_bounded(ctx):
                 check_structured(b, counts, lhs, terms[len(terms) // 2:], wrt)
     with ctx.bounded(
         "differentiate-finite-differences",
-        rule="multilinear formulas (<= 5 product terms over numeric columns a..d, with/without intercept) x tuples of <= 3 "
+        rule="multilinear formulas (<= 5 product terms over numeric columns a..d, 30% with a scaling literal, with/without intercept) x tuples of <= 3 "
              "distinct-or-repeated variables x integer/dyadic data (4-6 rows) x steps h in {1, 2, 0.5}; exact comparison of each "
              "non-zero derivative term's column with the iterated finite difference of the original term's column; non-trivial = "
              "at least one non-zero derivative term",
@@ -317,13 +337,21 @@ def run_bounded(ctx):
             ([(), ("a",), ("a", "b")], ("b",)),
             ([(), ("a",), ("a", "b")], ("a", "a")),
             ([(), ("a", "b", "c", "d")], ("d", "b", "a")),
+            ([("3", "a"), ("a", "b")], ("a",)),
+            ([(), ("3", "a"), ("2", "a", "b")], ("a",)),
+            ([("b", "0.5", "c")], ("b", "c")),
+            ([(), ("a", "2", "b"), ("1.5", "c")], ("a", "b")),
+            ([("3", "a"), ("b",)], ("b",)),
+            ([("2", "a", "b", "c")], ("c", "a")),
         ]
         cases = list(fixed)
         for _ in range(900 if ctx.thorough else 130):
             n = rng.randint(1, 5)
             terms = {frozenset(rng.sample(NAMES, rng.randint(0, 4))) for _ in range(n)}
             terms = [tuple(sorted(t, key=lambda _x: rng.random())) for t in terms]
-            present = sorted(set().union(*map(set, terms))) or ["a"]
+            terms = [t[:j] + (rng.choice(LITS),) + t[j:] if t and rng.random() < 0.3 else t
+                     for t in terms for j in [rng.randrange(len(t) + 1)]]
+            present = sorted(set().union(*map(set, map(variables_of, terms)))) or ["a"]
             wrt = tuple(rng.choice(present if rng.random() < 0.85 else NAMES) for _ in range(rng.randint(1, 3)))
             cases.append((terms, wrt))
         for i, (terms, wrt) in enumerate(cases):
@@ -336,4 +364,7 @@ def run_bounded(ctx):
         "iff it is one of its factors (function-call factors such as log(a) are outside 'products of distinct factors')",
         "A-float-exact: data, steps and all products are exactly representable, so finite differences are compared with ==",
         "C20-columns: a derivative term's column is located through model_spec.structure (term -> columns)",
+        "C20-scale: a numeric literal factor (`3:a`) scales the term; it is a factor no variable removes, so the derivative keeps it "
+        "(term oracle) and the column is scale x product of the remaining factors (finite-difference oracle); a derivative that is a "
+        "bare constant (`1`, `3`) is classified like the `1` term when it owns no column",
     )
